@@ -19,6 +19,9 @@ TEXTS = [
     "no match here",
     "smile 🙂 foo 👍🏽 foo\n",
     "tab\there\tfoo\n  indented foo\n",
+    # clusters of many bytes before the matches (flags and skin tones, 8 bytes each; no ZWJ or combining marks, which Rust's \\w takes and the reference's does not)
+    "🇩🇪🇫🇷🇮🇹 foo bar\nplain foo line\n",
+    "👍🏽👍🏽👍🏽 foo 🇯🇵🇯🇵 bar foo\n🇺🇸 foo\n",
 ]
 # the regex subset shared with the reference: literals, ., classes, \d \w \s, + ?, alternation; none can match the empty string
 PATTERNS = ["foo", "bar", "a", "o", "ba.", "f.o", "[0-9]+", "\\d+", "\\w+", "[a-z]+", "b[ae]", "foo|bar", "two|four|six", "a+", "fo+", "Zeile",
